@@ -17,6 +17,9 @@ fn lists() -> Vec<Vec<Det>> {
         vec![p2().shift(-2.0, 0.0), q().shift(-60.0, 0.0)],                   // objects approach each other
         vec![q().shift(-93.0, 1.0), p2().shift(-1.0, 2.0).feat(&fa1(), 0.8)],  // crossing pair, order swapped
         vec![p1()],
+        // a dense cluster: every detection overlaps every track, several per shard
+        vec![p(), p().shift(2.0, 1.0), p().shift(4.0, 3.0), p().shift(1.0, 5.0)],
+        vec![p().shift(0.5, 0.5), p().shift(2.5, 1.5), p().shift(4.5, 3.5), p().shift(1.5, 5.5)],
     ]
 }
 
@@ -46,14 +49,14 @@ pub fn run_check(tier: Tier) -> Report {
     super::c04::run_c05_configs(&rep, tier);
 
     let ls = Arc::new(lists());
-    let histories: Vec<Vec<Call>> = vec![vec![(0, 0), (0, 1), (0, 3)], vec![(0, 0), (0, 2), (0, 3)], vec![(0, 1), (5, 0), (0, 2)], vec![(0, 4), (0, 1), (0, 2)]];
+    let histories: Vec<Vec<Call>> = vec![vec![(0, 0), (0, 1), (0, 3)], vec![(0, 0), (0, 2), (0, 3)], vec![(0, 1), (5, 0), (0, 2)], vec![(0, 4), (0, 1), (0, 2)], vec![(0, 5), (0, 6)]];
     let mut scen = BTreeMap::new();
     let mut total = 0u64;
     for kind in [Kind::Sort, Kind::VisualSort] {
         for pos in [Pos::Iou(0.3), Pos::Maha] {
             for shards in [2usize, 3] {
                 for (hi, h) in histories.iter().enumerate() {
-                    if tier == Tier::Quick && (hi >= 2 && (shards == 3 || pos == Pos::Maha) || kind == Kind::VisualSort && shards == 3 && hi >= 1) {
+                    if tier == Tier::Quick && (hi >= 2 && hi != 4 && (shards == 3 || pos == Pos::Maha) || hi == 4 && (shards == 3 || pos == Pos::Maha || kind == Kind::VisualSort) || kind == Kind::VisualSort && shards == 3 && hi >= 1) {
                         continue;
                     }
                     if rep.out_of_time() {
